@@ -427,8 +427,11 @@ def _write_evidence(prop: str, tier: str, seed: int, entry: Dict[str, Any], mods
         trusted.append('callee contract used at call sites (proved by its own harness where listed under functions_under_contract): %s' % s)
     level = entry.get('level', 'proof')
     cov: Dict[str, Any] = {
-        'obligations': n_ob,
+        # obligations that this run had to discharge = everything generated except the refutations that are recorded
+        # known findings (those are listed one by one under known_findings_reported and counted in refuted_known_findings)
+        'obligations': n_ob - n_known,
         'discharged': n_dis,
+        'obligations_generated_total': n_ob,
         'refuted_known_findings': n_known,
         'refuted_new': sum(1 for ob in allobs if ob['status'] == 'refuted' and not ob.get('known')),
         'unknown': sum(1 for ob in allobs if ob['status'] == 'unknown'),
